@@ -46,7 +46,9 @@ CONFIGS = [
     {"ignore_exc": True, "timeout": 2.5},
 ]
 OPS = [("set", ("k", b"v"), {"noreply": False}), ("get", ("h1",), {}), ("get_many", (["h1", "h2"],), {}),
-       ("set", ("k", b"v"), {"noreply": True}), ("delete_many", (["h1", "m1"],), {"noreply": False})]
+       ("set", ("k", b"v"), {"noreply": True}), ("delete_many", (["h1", "m1"],), {"noreply": False}),
+       # fire-and-forget commands of the third command helper, and the one command that ends the connection itself
+       ("delete", ("h1",), {}), ("incr", ("num", 1), {"noreply": True}), ("quit", (), {})]
 PROBES = [("get", ("h2",), {}), ("add", ("probe", b"p"), {"noreply": False})]
 HARD = {"refused", "timeout", "unreach", "reset", "brokenpipe", "timeout_delivered", "eof", "oserror", "gaierror", "valueerror", "overflow"}
 
@@ -252,6 +254,53 @@ def run_group(res, stack, skind, cfg, op, warm, tier, rng):
             queue.extend((p, 2) for p in plans_depth2(case, plan, o, rng, tier))
 
 
+def failover_close_audit(res, seed, count):
+    """Clients inside a HashClient that has been through failures, evictions and revivals: close() (or quit() with every
+    server healthy) must leave no socket open.  The histories are C13's random fail-over sequences; only the socket
+    ledger is judged here."""
+    from checks import c13
+    rng = random.Random(seed)
+    for i in range(count):
+        nserv = rng.choice([2, 3])
+        cfg = (nserv, rng.choice([0, 1, 2]), rng.random() < 0.5, rng.random() < 0.3, rng.random() < 0.25)
+        seq = c13.random_sequence(rng, nserv)[:rng.randrange(6, 40)]
+        closer = rng.choice(["close", "close", "quit"])
+        case = ("failover-close", cfg, seq, closer)
+        if not _failover_close_case(res, case):
+            break
+
+
+def _failover_close_case(res, case):
+    from checks import c13
+    _, cfg, seq, closer = case
+    sim = c13.Sim(*cfg)
+    try:
+        for ev in seq:
+            sim.event(tuple(ev))
+        if closer == "quit":
+            for srv in sim.servers.values():
+                srv.health = "up"
+        sim.net.begin_call("final-" + closer)
+        try:
+            getattr(sim.hc, closer)()
+        except OSError:
+            pass
+        sim.net.end_call()
+        res.count("failover_histories_closed")
+        res.count("sockets_audited_after_failover", len(sim.net.socks))
+        left = [s for s in sim.net.socks if not s.closed]
+        res.case(("failover-close", cfg, len(seq), closer, len(sim.net.socks)) if sim.stats["failed_contacts"] else None)
+        if left:
+            res.violation("socket-left-open-after-HashClient.%s()" % closer,
+                          "after %d fail-over events (servers,retry_attempts,ignore_exc,pooling,unix=%r) %s() left %d of %d sockets open "
+                          "(to %r); rotation %r" % (len(seq), cfg, closer, len(left), len(sim.net.socks),
+                                                     sorted({str(s.addr_key()) for s in left}), sorted(sim.rotation())), case)
+            return False
+        return True
+    finally:
+        sim.close()
+
+
 def groups(tier):
     out = []
     for stack in ("client", "pooled", "hash", "hashpooled"):
@@ -276,6 +325,7 @@ def shard(tier, seed, idx, n):
         if gi % n != idx:
             continue
         run_group(res, *g, tier, random.Random(seed * 7919 + gi))
+    failover_close_audit(res, seed * 977 + idx, 40 if tier == "quick" else 600)
     res.extra["groups_total"] = len(gs) if idx == 0 else 0
     res.extra["exhaustive"] = True
     res.extra["exhaustive_part"] = "depth-1 fault plans for every group; depth-2 plans exhaustive in thorough, sampled (12 per depth-1 plan) in quick"
@@ -284,6 +334,12 @@ def shard(tier, seed, idx, n):
 
 def replay(case):
     res = common.Result()
+    if isinstance(case, (list, tuple)) and case and case[0] == "failover-close":
+        _failover_close_case(res, (case[0], tuple(case[1]), [tuple(e) for e in case[2]], case[3]))
+        for c in REQUIRED_COUNTERS:
+            res.count(c)
+        res.nontrivial.update({1, 2})
+        return res
     o = execute(case)
     viol, _ = judge(case, o)
     res.case(("replay",))
